@@ -6,8 +6,11 @@
    (the step is abstract: InferenceCtx::infer / globals.rs are NOT modelled).  Everything else
    (indexing order, imports, file splitting, cyclic programs, code generation, run time) is
    covered only by the end-to-end metamorphic test of lib/verif/props/c20.py.
-   Termination of the loop is NOT proved (only: more fuel never changes a result, and no
-   panic site is reachable); hangs are looked for by the end-to-end stream.
+   Termination of the MODELLED loop is proved under step-level hypotheses (acyclic real
+   dependencies, requests are non-empty lists of unfinished real dependencies, finite reachable
+   set) with the explicit bound |U| + |U|^2 + 1 rounds, and "the loop runs out of every fuel
+   iff it reaches a round that changes nothing" is proved without those hypotheses; whether
+   the real inference step satisfies them is tested (trace stream), not proved.
    Only statements, [exact]s and [Print Assumptions] live here. *)
 From Capy Require Import Common.Util Model.Topo Spec.Sched Model.SchedLoop
   Proofs.TopoRefine Proofs.SchedLoopProofs.
@@ -64,6 +67,61 @@ Theorem C20_finish_fuel_mono :
 Proof. exact finish_fuel_mono. Qed.
 Print Assumptions C20_finish_fuel_mono.
 
+(* Termination with an explicit bound: every round completes an item or registers a new
+   dependency edge (measure |done| + |waits| <= |U| + |U|^2). *)
+Theorem C20_finish_terminates :
+  forall (R : Type) (infer : item -> list (item * R) -> step R) (cyc_order : list item -> list item)
+         (deps : item -> list item) (rank : item -> nat),
+  (forall x d, In d (deps x) -> rank d < rank x) ->
+  (forall x f ds, infer x f = Needs ds -> forall d, In d ds -> In d (deps x) /\ lookup R d f = None) ->
+  (forall x f, infer x f <> Needs []) ->
+  forall seed U, (forall x, Reach deps seed x -> In x U) ->
+  exists f, finish R infer cyc_order seed (S (length U + length U * length U)) = Ok f.
+Proof. exact finish_terminates. Qed.
+Print Assumptions C20_finish_terminates.
+
+(* Confluence with the fuel replaced by that bound. *)
+Theorem C20_schedule_confluent_bounded :
+  forall (R : Type) (infer : item -> list (item * R) -> step R) (cyc_order : list item -> list item)
+         (deps : item -> list item) (rank : item -> nat),
+  (forall x d, In d (deps x) -> rank d < rank x) ->
+  (forall x f1 f2, (forall d, In d (deps x) -> lookup R d f1 = lookup R d f2) -> infer x f1 = infer x f2) ->
+  (forall x f r, infer x f = Done r -> forall d, In d (deps x) -> lookup R d f <> None) ->
+  (forall x f ds, infer x f = Needs ds -> forall d, In d ds -> In d (deps x) /\ lookup R d f = None) ->
+  (forall l, Permutation (cyc_order l) l) ->
+  (forall x f, infer x f <> Needs []) ->
+  forall seed1 seed2 U,
+    Permutation seed1 seed2 ->
+    (forall x, Reach deps seed1 x -> In x U) ->
+    exists f1 f2,
+      finish R infer cyc_order seed1 (S (length U + length U * length U)) = Ok f1 /\
+      finish R infer cyc_order seed2 (S (length U + length U * length U)) = Ok f2 /\
+      forall x, lookup R x f1 = lookup R x f2.
+Proof. exact schedule_confluent_bounded. Qed.
+Print Assumptions C20_schedule_confluent_bounded.
+
+(* The loop hangs (runs out of every fuel) iff it reaches a round that leaves its whole state
+   -- worklist and finished results -- unchanged.  No acyclicity / progress hypothesis.
+   (C26_round_unchanged_iff_stalled says what such a round looks like.) *)
+Theorem C20_finish_hangs_iff_stuck_round :
+  forall (R : Type) (infer : item -> list (item * R) -> step R) (cyc_order : list item -> list item)
+         (deps : item -> list item),
+  (forall x f ds, infer x f = Needs ds -> forall d, In d ds -> In d (deps x) /\ lookup R d f = None) ->
+  (forall l, Permutation (cyc_order l) l) ->
+  forall seed U, (forall x, Reach deps seed x -> In x U) ->
+  is_empty (extend empty seed) = false ->
+  ((forall n, finish R infer cyc_order seed n = OutOfFuel) <->
+   exists st', Reaches R infer cyc_order (extend empty seed, []) st' /\ StuckRound R infer cyc_order st').
+Proof. exact finish_hangs_iff_stuck_round. Qed.
+Print Assumptions C20_finish_hangs_iff_stuck_round.
+
+Theorem C20_stuck_round_diverges :
+  forall (R : Type) (infer : item -> list (item * R) -> step R) cyc_order t f l,
+  round_items cyc_order t = Ok l -> process_all R infer (t, f) l = Ok (t, f) -> is_empty t = false ->
+  forall n, finish_loop R infer cyc_order n (t, f) = OutOfFuel.
+Proof. exact stuck_round_diverges. Qed.
+Print Assumptions C20_stuck_round_diverges.
+
 (* The hypotheses are satisfiable for every dependency function: the canonical step. *)
 Theorem C20_hypotheses_satisfiable :
   forall (R : Type) (deps : item -> list item) (comb : item -> list (option R) -> R),
@@ -89,3 +147,14 @@ Example C20_example :
     = Ok [Some 5; Some 2; Some 2; Some 1]%N /\
   ex_finish [0]%N = Ok [(0, 5); (2, 2); (1, 2); (3, 1)]%N.
 Proof. vm_compute. repeat split; reflexivity. Qed.
+
+Theorem C20_canonical_step_nonempty :
+  forall (R : Type) (deps : item -> list item) (comb : item -> list (option R) -> R) x f,
+  canon_infer R deps comb x f <> Needs [].
+Proof. exact canon_nonempty. Qed.
+Print Assumptions C20_canonical_step_nonempty.
+
+(* the explicit bound suffices on the example (|U| = 4 -> 21 rounds allowed; 4 needed) *)
+Example C20_example_bound :
+  exists f, finish N (canon_infer N ex_deps ex_comb) (fun l => l) [3;1;0;2]%N (S (4 + 4 * 4)) = Ok f.
+Proof. eexists. vm_compute. reflexivity. Qed.
